@@ -21,3 +21,40 @@ func VerifObfuscateBody(
 	}
 	return obfuscator.ObfuscateRequestBody(body)
 }
+
+// VerifBodyObfuscator is one obfuscator object of the HAR collector, to be used
+// for a history of bodies (the collector uses one per transaction for the
+// request body and then the response body).
+type VerifBodyObfuscator struct {
+	obfuscator *apiStreamObfuscator
+}
+
+func VerifNewBodyObfuscator(
+	exclusions []string,
+	apiStream public_types.APIStreamI,
+) *VerifBodyObfuscator {
+	return &VerifBodyObfuscator{newAPIStreamObfuscator(true, exclusions, apiStream)}
+}
+
+func (v *VerifBodyObfuscator) RequestBody(body string) string {
+	return v.obfuscator.ObfuscateRequestBody(body)
+}
+
+func (v *VerifBodyObfuscator) ResponseBody(body string) string {
+	return v.obfuscator.ObfuscateResponseBody(body)
+}
+
+// VerifGenerateHARBodies runs the collector's generateHAR for a transaction with
+// obfuscation enabled and returns the exported request and response bodies.
+func VerifGenerateHARBodies(
+	exclusions []string,
+	apiStream public_types.APIStreamI,
+) (string, string, error) {
+	processor := &harCollectorProcessor{obfuscateEnabled: true, obfuscateExclusions: exclusions}
+	harObject, err := processor.generateHAR(apiStream)
+	if err != nil {
+		return "", "", err
+	}
+	entry := harObject.Log.Entries[0]
+	return entry.Request.Body.(string), entry.Response.Content.(string), nil
+}
